@@ -236,7 +236,9 @@ CLAIMED = {
                 "block sizes around multiples of nprocs and of the 64 MiB unit; small record/fixed layouts), the chunk "
                 "partition of move_file_block tiles the block, goes tail first with one displacement, never overlaps "
                 "unmoved data, is collectively consistent, and the move sequences put every old byte at its new offset. "
-                "Value preservation over all layouts/histories and the abort clause are NOT decided.",
+                "For abort: no header/data writer is reachable from ncmpio_abort in the call graph (only the record-count "
+                "write-back) and a file under creation is deleted. Value preservation over all layouts/histories and "
+                "byte-for-byte equality after abort are NOT decided.",
         "note": "The two R8 rules are bounded (not exhaustive) evaluations of arithmetic slices, not executions of the "
                 "library; MPI-IO is assumed to deliver the requested counts.",
         "design_ref": "DESIGN.md section 3 / C06",
